@@ -10,7 +10,7 @@ for id in "$@"; do
   cd /verif
   OUT=/tmp/matrix_$id.$TIER.txt
   S=$(date +%s)
-  VERIF_REPO=$WT VERIF_JOBS=${VERIF_JOBS:-5} ./vcheck $prop $TIER > $OUT 2>&1; RC=$?
+  VERIF_FAILFAST=${VERIF_FAILFAST:-1} VERIF_REPO=$WT VERIF_JOBS=${VERIF_JOBS:-5} ./vcheck $prop $TIER > $OUT 2>&1; RC=$?
   E=$(date +%s)
   { echo "exit=$RC seconds=$((E-S)) head=$(git -C /repo rev-parse --short HEAD) verif=$(git -C /verif rev-parse --short HEAD)";
     grep -E "failed clause" $OUT | sed 's/^ *//' | sort | uniq -c | sort -rn | head -5;
